@@ -105,9 +105,37 @@ def net_case(t, tr, prefix, how, n):
     return c
 
 
+def contended_case(t, source, how, n):
+    """the socket goes away while ANOTHER THREAD holds the fair queue's lock: a `recv` was polled once with a waker whose
+    wake() takes 700 ms; that waker is then woken under the lock — by a handshake task registering a new peer, or by
+    the I/O driver announcing data — and close()/drop is issued 80 ms into that window"""
+    peer = netgen.PEER[t]
+    msg = ".,6d" if t == "REP" else "0174" if t == "XPUB" else "6d"
+    ops = [f"sock 1 {t}", "monitor 1", "bind 1 tcp4", "rawconn 1 ep#0", f"rawhs 1 {peer}", "rawwait 1 hs", "events 1 2",
+           "recvslow 1 700"]
+    if source == "registering":
+        # (no wait on the raw connection here: the worker thread that sleeps in the slow waker may be the one that
+        # drives the runtime's I/O — the pause is pure wall-clock time)
+        ops += ["rawconn 2 ep#0", f"rawhs 2 {peer}", "pause 150"]
+    else:
+        ops += [f"rawmsg 1 {msg}", "pause 150"]
+    ops.append("close 1" if how == "close" else "dropsock 1")
+    # (only the peer that is REGISTERED for certain is judged: whether the second one had got as far as registration
+    # when the socket went away is a race — if not, it is the pending-handshake situation of finding D14)
+    ops += ["probegone ep#0", "rawwait 1 eof"]
+    c = Case(f"{t}:{how}:net-contended-{source}#{n}", "net", ops, [f"net-{how}"])
+    c.expect = ("net", t, ["accepted"], how)
+    return c
+
+
 def cases(tier, rng):
     out = gen.corpus(ID)
     n = 0
+    for t in (["PULL", "ROUTER", "REP"] if tier == "quick" else ["PULL", "SUB", "DEALER", "ROUTER", "REP", "XPUB"]):
+        for source in ("registering", "data"):
+            for how in ("close", "drop"):
+                out.append(contended_case(t, source, how, n))
+                n += 1
     for t in (["PULL", "PUB", "ROUTER", "REQ"] if tier == "quick" else netgen.TYPES9):
         for tr in netgen.transports():
             for prefix in ([], ["accepted"], ["accepted", "traffic"], ["accepted", "pending-handshake"], ["pending-handshake"]):
